@@ -49,14 +49,16 @@ def mentions_acc(t, loopid=None):
 
 def subst(t, f):
     """Bottom-up rewrite: f(term) -> replacement or None."""
-    if not isinstance(t, tuple):
+    if not isinstance(t, tuple) or not t:
         return t
-    r = f(t)
-    if r is not None:
-        return r
+    is_term = isinstance(t[0], str)
+    if is_term:
+        r = f(t)
+        if r is not None:
+            return r
     new = tuple(subst(x, f) if isinstance(x, tuple) else x for x in t)
     if new != t:
-        return simp(new)
+        return simp(new) if is_term else new
     return t
 
 
@@ -882,6 +884,16 @@ def show(t):
         return "compr%d" % t[1]
     if h == "unbound":
         return "<unbound>"
+    if h == "p":
+        return "elem.0"
+    if h == "t":
+        return "elem.1"
+    if h == "e":
+        return "elem"
+    if h == "sf":
+        return "state[%s].%s" % (show(t[1]), t[2])
+    if h == "filtered":
+        return "[%s | %s]" % (show(t[1]), show(t[2]))
     if h == "truthy":
         return "bool(%s)" % show(t[1])
     return "%s(%s)" % (h, ", ".join(show(x) if isinstance(x, tuple) else repr(x) for x in t[1:]))
